@@ -84,9 +84,11 @@ func run(r *evid.Run) {
 	r.Rule(fmt.Sprintf("documents: for each file type and each frame (version x layout) every feature vector with at most %d non-zero dimensions, every non-zero dimension at every value (%d-way exhaustive, not the full product); "+
 		"a document is a distinct non-trivial case iff its text is new, the reader accepts it and its accessor dump differs from the dump of the frame's empty document (the features had an effect). "+
 		"migration: workspaces of the workspace grammar (layout x module kinds x roots x excludes x names x lint/breaking sections x deps): every single dimension at every value, all pairs of interacting dimensions (thorough: all pairs and all interacting triples); a workspace is distinct iff its feature key is new, it builds/lints/breaking-checks before migration and the migrator accepted it. "+
-		"migration, dependency-merge worlds: the declarations of one shared remote dependency (none / unpinned / :r1 / :r2) by two modules as a full product and by three declaring modules as multisets, with and without a buf.work.yaml, x which modules carry a buf.lock, file versions, a second dependency / a dependency on a workspace module (quick: one at a time; thorough: full product, plus the full 4x4x4 product of declarations by three modules).", t, t))
+		"migration, dependency-merge worlds: the declarations of one shared remote dependency (none / unpinned / :r1 / :r2) by two modules as a full product and by three declaring modules as multisets, with and without a buf.work.yaml, x which modules carry a buf.lock, file versions, a second dependency / a dependency on a workspace module (quick: one at a time; thorough: full product, plus the full 4x4x4 product of declarations by three modules); on the vectors with two or three unpinned declarers additionally which commit of the dependency's history each lock pins (all at the head / first older / second older / both stale / three different) and the form of the v1 lock files (shake256, commit-only, retired digest types x version key v1, v1beta1, none). "+
+		"buf.lock documents: the full product of the lock grammar; a document that is valid by the documented format must be accepted (reference model of validity).", t, t))
 	r.Set("t_way", t)
-	r.Assume("migration, dependencies: the in-process registry holds one commit per remote module, so every ref (:r1, :r2, none) of a module resolves to the same commit; which of two different declared refs the migrator keeps is then a tie and either is accepted")
+	r.Assume("migration, dependencies: every commit of a registry module is a backward compatible superset of the commit before it (what the registry's breaking check enforces), commits of one module have distinct create times, and a lock of a module that declares a label pins the commit the label resolves to at migration time; where the modules of a workspace disagree on the ref or on the locked commit of a dependency, the newest by create time must survive (what a v1 buf.work.yaml workspace already builds against)")
+	r.Assume("buf.lock validity is judged by a reference model written from the documented format (digest types per version, backfill of missing / retired digests through the digest resolver); documents with neither a version nor deps are outside the model")
 	r.Assume("the dimension grammar is t-way exhaustive (t=2 quick, t=3 thorough), not the full product of all features")
 	r.Assume("'the same configuration' is judged on the public accessors of the parsed objects (deep accessor dump); for v2 buf.yaml the TopLevelLintConfig/TopLevelBreakingConfig accessors are informational because hoisting identical per-module sections is the writer's documented freedom; the per-module effective configs are compared strictly")
 
